@@ -364,3 +364,86 @@ def replay(ctx: Ctx, driver: str, case: dict, pid="C01", only=is_c01) -> Report:
         if mine:
             rep.violations.append(Violation(f"{pid}:{case['env']}:" + "+".join(mine), f"step {l - 1}: {mine}", "builtin_env", case))
     return rep
+
+
+# --------------------------------------------------------------------------------------------- extremal search (C02)
+_SEARCH_JIT: dict = {}
+
+
+def extremal_search(name: str, env, horizon: int, pop: int, gens: int, seed: int) -> dict:
+    """Search for in-space action sequences that drive observation components to their extremes: a small evolutionary search
+    over bang-bang (bound-corner) action sequences, evaluated by vmapped rollouts through the real env.reset / env.step.
+    Every observation visited by every candidate must be a member of the declared observation space (numpy oracle)."""
+    import equinox as eqx
+    import jax
+    import jax.numpy as jnp
+    import jax.random as jr
+    from lerax.space import Box, Discrete
+    sp = env.action_space
+    if isinstance(sp, Discrete):
+        lo_a, hi_a = jnp.asarray(0), jnp.asarray(sp.n - 1)
+    else:
+        lo_a, hi_a = sp.low, sp.high
+
+    if "f" not in _SEARCH_JIT:
+        def rollout(env, lo_a, hi_a, bits, rkey, skeys):
+            def one(b):
+                state, obs0, _ = env.reset(key=rkey)
+
+                def body(st, xs):
+                    bit, k = xs
+                    a = jnp.where(bit, hi_a, lo_a)
+                    out = env.step(st, a, key=k)
+                    return out[0], (out[1], out[2])
+                _, (obs, rew) = jax.lax.scan(body, state, (b, skeys))
+                return jnp.concatenate([obs0[None], obs]), rew
+            return jax.vmap(one)(bits)
+        _SEARCH_JIT["f"] = eqx.filter_jit(rollout)
+    f = _SEARCH_JIT["f"]
+    rng = np.random.default_rng(seed)
+    olo, ohi = np.asarray(env.observation_space.low, dtype=np.float64), np.asarray(env.observation_space.high, dtype=np.float64)
+    k0, k1 = jr.split(jr.key(seed))
+    skeys = jr.split(k1, horizon)
+
+    def random_member():
+        b = np.zeros(horizon, dtype=bool)
+        t, cur = 0, bool(rng.integers(2))
+        while t < horizon:
+            seg = int(rng.integers(1, max(2, horizon // 4)))
+            b[t:t + seg] = cur
+            cur = not cur
+            t += seg
+        return b
+
+    popn = np.stack([random_member() for _ in range(pop)])
+    popn[0, :] = False
+    popn[1, :] = True
+    worst_margin, in_space, typed, finite_rew, n_obs = np.inf, True, True, True, 0
+    extremes = None
+    for g in range(gens):
+        obs, rew = f(env, lo_a, hi_a, jnp.asarray(popn), k0, skeys)
+        obs, rew = np.asarray(obs, dtype=np.float64), np.asarray(rew)
+        n_obs += obs.shape[0] * obs.shape[1]
+        typed &= obs.shape[2:] == olo.shape
+        bad = np.isnan(obs) | (obs < olo) | (obs > ohi)
+        in_space &= not bool(bad.any())
+        finite_rew &= bool(np.all(np.isfinite(rew)))
+        flat = obs.reshape(obs.shape[0], obs.shape[1], -1)
+        mx, mn = flat.max(axis=1), flat.min(axis=1)                  # (pop, dim)
+        extremes = (mn.min(axis=0), mx.max(axis=0))
+        elite = set()
+        for d in range(flat.shape[2]):
+            elite |= set(np.argsort(mx[:, d])[-3:]) | set(np.argsort(mn[:, d])[:3])
+        elite = sorted(elite)
+        children = []
+        while len(children) < pop - len(elite):
+            p = popn[elite[int(rng.integers(len(elite)))]].copy()
+            for _ in range(int(rng.integers(1, 4))):
+                a, w = int(rng.integers(horizon)), int(rng.integers(1, max(2, horizon // 6)))
+                p[a:a + w] = ~p[a:a + w] if rng.random() < 0.5 else bool(rng.integers(2))
+            children.append(p)
+        popn = np.stack([popn[i] for i in elite] + children)
+    return {"limits": [], "events": [dict(ev="reset", term=False, trunc=False, c_term=False, c_trunc=False, cnt=[], atoms={
+        "SigObservationInDeclaredSpace": bool(in_space), "SigObservationDtypeAndShape": bool(typed), "SigRewardIsFiniteFloatScalar": bool(finite_rew)})],
+        "meta": {"env": name, "stack": [], "mode": "extremal_search", "observations_checked": int(n_obs), "generations": gens,
+                 "extremes_reached": [[float(x) for x in extremes[0]], [float(x) for x in extremes[1]]]}}
